@@ -193,7 +193,8 @@ def deep_recipes():
     out.append({"sys": "robust", "base": "raw", "seed": 7, "id": "deep:chain",
                 "sections": {"debug_abbrev": abbrev, "debug_info": info},
                 "mut": [{"k": "repeat", "sec": "debug_info", "bytes": [1], "n": n}, {"k": "repeat", "sec": "debug_info", "bytes": [0], "n": 1}],
-                "only": ["units", "unit", "convert", "convert_steps"], "budget": 2000000, "max_entries": 1000000})
+                "only": ["units", "convert_steps"], "budget": 2000000, "max_entries": 1000000})
+    out.append(dict(out[-1], id="deep:chain-read", only=["units", "unit"], budget=300000, max_entries=3000))
     # 1 MB of zero tuples in .debug_aranges (address size 4)
     hdr = [2, 0] + u32(0) + [4, 0] + [0, 0, 0, 0]
     nt = 131072
@@ -552,7 +553,7 @@ def recipe_class(r):
     b = r.get("base", "raw")
     ks = "+".join(sorted(set(m.get("k", "") for m in r.get("mut", [])))) or "none"
     ident = r.get("id", "")
-    if ident.startswith(("deep:", "x:")):
+    if ident.startswith(("deep:", "x:", "tg:")):
         return ident
     return "%s:%s:%s" % (b.split(":")[0], ks, ",".join(r.get("only", ["all"]))[:40])
 
